@@ -23,8 +23,8 @@ TRUSTED_BASE = BASE_TRUSTED + [
 ]
 RULE = ('eleven closed-form stigmatic configurations (paraboloid at infinity, incl. after a fold mirror with Rc>0; spherical mirror at its centre of curvature; '
         'ellipsoid mirror focus-to-focus both ways; Cassegrain and Gregorian (hyperboloid/ellipsoid secondary); plano-hyperbolic singlet k=-n^2 both directions of travel; '
-        'refracting ellipsoid; plano-hyperbolic + aplanatic meniscus, image in air or immersed), half of them reached through an edit history '
-        '(built with other conic/radius/thickness/index, incl. flat-first, then set_conic/set_radius/set_thickness/set_index), over seeded radii 15..600 mm, n in [1.3,4], apertures from f/8 to f/0.6 '
+        'refracting ellipsoid; convex hyperboloid mirror from its far focus (virtual image, ray-level clauses); plano-hyperbolic + aplanatic meniscus, image in air or immersed), half of them reached through an edit history '
+        '(built with other conic/radius/thickness/index, incl. flat-first, then set_conic/set_radius/set_thickness/set_index); the axial field carries random vignetting factors (vx, vy independent, incl. 0 and unequal) in 40% of the instances; seeded radii 15..600 mm, n in [1.3,4], apertures from f/8 to f/0.6 '
         '(NA to 0.9), 16-24 pupil points incl. the rim; FFTPSF sampled with every parity of num_rays, grid_size (odd grids 65..255) and of their difference; non-trivial = instance whose marginal ray is finite at the image')
 PARTIAL = [
     'ellipsoid/hyperboloid/plano-hyperbolic/aplanatic theorems take "the hit point lies on the vertex sheet of the conic" as a hypothesis (the exact hit distance '
@@ -235,7 +235,7 @@ def _instances(ctx, per_config, salt=0):
 
 def _witness(cfg, violations, n_sin_u=None):
     return {'config': cfg['name'], 'params': cfg['params'], 'spec': cfg['spec'],
-            'edits_after_build': cfg.get('edits') or [],
+            'edits_after_build': cfg.get('edits') or [], 'vignetting_vx_vy': cfg.get('vignetting'),
             'image_in_glass': cfg.get('image_in_glass'), 'n_sin_u_image': n_sin_u,
             'violations': violations, 'violates_property': True}
 
@@ -301,6 +301,9 @@ def system_checks(ctx):
         bodies.append('\n'.join(defs) + '\nEval vm_compute in (report [\n' + ';\n'.join(lines) + '\n]).\n')
         meta.append((cfg, len(recs), recs))
         resA['histogram'][cfg['name']] = resA['histogram'].get(cfg['name'], 0) + 1
+        if any(cfg.get('vignetting') or []):
+            key = 'vignetted_axial_field(vx!=vy)' if cfg['vignetting'][0] != cfg['vignetting'][1] else 'vignetted_axial_field(vx==vy)'
+            resA['histogram'][key] = resA['histogram'].get(key, 0) + 1
         if cfg.get('edits'):
             resA['histogram']['reached_by_edit_history'] = resA['histogram'].get('reached_by_edit_history', 0) + 1
     try:
@@ -437,18 +440,45 @@ def system_checks(ctx):
     yield resB
     yield resC
 
+    # ---------- (D) configurations with a virtual image: ray-level clauses on the implementation ----------
+    import random as _random
+    resD = {'name': 'virtual-image-ray-clauses', 'n': 0, 'nontrivial': 0, 'samples': [], 'disagreements': [],
+            'histogram': {'vignetted': 0, 'reached_by_edit_history': 0}}
+    rngD = _random.Random(ctx.seed * 977 + 6)
+    for name in c06_lib.VIRTUAL_CONFIGS:
+        for _ in range(ctx.n(10, 60)):
+            cfg = c06_lib.gen_config(rngD, name)
+            bad = c06_lib.oracle_virtual(cfg, rngD, nr)
+            resD['n'] += nr
+            resD['histogram']['vignetted'] += int(any(cfg.get('vignetting') or []))
+            resD['histogram']['reached_by_edit_history'] += int(bool(cfg.get('edits')))
+            if bad:
+                resD['disagreements'].append(_witness(cfg, bad))
+            else:
+                resD['nontrivial'] += 1
+            if not resD['samples']:
+                resD['samples'].append({'config': name, 'params': cfg['params'], 'violations': bad})
+    yield resD
+
 
 def search(ctx, broken, disagreements):
     """the property stated directly on the implementation: seeded sweep over the closed-form configurations
     (image point, optical-path spread, Wavefront.data, FFTPSF Strehl); returns every violating instance"""
     insts, rng = _instances(ctx, ctx.n(6, 40), salt=1000)
     found = []
+    import c06_lib
     for cfg in insts:
         w = _confirm(cfg, rng)
         if w:
             found.append(w)
             if len(found) >= 6:
                 break
+    for name in c06_lib.VIRTUAL_CONFIGS:
+        for _ in range(ctx.n(10, 60)):
+            cfg = c06_lib.gen_config(rng, name)
+            bad = c06_lib.oracle_virtual(cfg, rng)
+            if bad and len(found) < 10:
+                found.append(_witness(cfg, bad))
     return found or None
 
 
@@ -462,6 +492,8 @@ def matches_finding(w, f):
     """image-surface-refracts: ONLY an immersed-image configuration whose image surface is left with air behind
     it, whose marginal ray exceeds the critical angle there (n sin U' > 1), and whose every complaint is a NaN
     direction at the image surface or the NaN wavefront / Strehl that follows from it"""
+    if f.get('id') == 'conic-wrong-sheet':
+        return _matches_wrong_sheet(w)
     if f.get('id') != 'image-surface-refracts':
         return False
     import c06_lib
@@ -473,6 +505,32 @@ def matches_finding(w, f):
     v = w.get('violations') or []
     return bool(v) and all(x.get('kind') in _FINDING_KINDS for x in v)
 
+
+def _matches_wrong_sheet(w):
+    """conic-wrong-sheet: ONLY a ray leaving the far focus of a convex hyperboloid mirror for which BOTH sheets are
+    ahead and the second sheet is met closer (in z) to the vertex than the vertex sheet - recomputed here in closed
+    form from the launch direction of the reported ray - and whose reported hit is that second-sheet point"""
+    if w.get('config') != 'hyperboloid_far':
+        return False
+    v = w.get('violations') or []
+    if len(v) != 1 or v[0].get('kind') != 'hit-on-other-sheet':
+        return False
+    try:
+        R, e = w['params']['R'], w['params']['e']
+        N = abs(v[0]['launch_direction'][2])
+        zhit = v[0]['hit'][2]
+    except (KeyError, TypeError, IndexError):
+        return False
+    if not (R > 0 and e > 1 and e * N > 1):          # the vertex sheet is met (ray below the asymptote angle)
+        return False
+    f2 = R / (1 - e)
+    z_v = f2 + N * R / (e * N - 1)
+    z_o = f2 + N * R / (1 + e * N)
+    return abs(z_o) <= abs(z_v) and abs(zhit - z_o) <= 1e-9 * (abs(z_o) + abs(R))
+
+
+REPLAY_WRONG_SHEET = {'name': 'hyperboloid_far', 'params': {'R': 11.0, 'e': 1.5, 'na': 0.6}, 'edits': [],
+                      'vignetting': [0.0, 0.0], 'image_in_glass': None, 'scale': 100.0}
 
 REPLAY_CFG = {
     'name': 'aplanat_immersed', 'image_in_glass': False, 'scale': 200.0,
@@ -496,10 +554,24 @@ def _replay_cfg():
 
 
 def replay_finding(ctx, f):
-    if f.get('id') != 'image-surface-refracts':
-        return None
     import random
     import c06_lib
+    if f.get('id') == 'conic-wrong-sheet':
+        # R = 11, e = 3/2 (k = -9/4), object at the far focus z = -22, ray (0, 3/5, 4/5): the vertex sheet is met at
+        # z = +22 after t = 55, the second sheet at z = -18 after t = 5; the code returns t = 5
+        cfg = dict(REPLAY_WRONG_SHEET)
+        R, e = cfg['params']['R'], cfg['params']['e']
+        cfg['spec'] = c06_lib._spec(-R / (1 - e), [c06_lib._std(R, -22.0, 'mirror', -e * e, True)],
+                                    ['objectNA', 0.6], True)
+        bad = c06_lib.oracle_virtual(cfg, random.Random(1))
+        w = {'config': 'hyperboloid_far', 'params': cfg['params'], 'violations': bad}
+        # below the regime (NA 0.3) the same mirror must be perfect
+        cfg2 = dict(cfg)
+        cfg2['spec'] = c06_lib._spec(-R / (1 - e), [c06_lib._std(R, -22.0, 'mirror', -e * e, True)],
+                                     ['objectNA', 0.3], True)
+        return _matches_wrong_sheet(w) and not c06_lib.oracle_virtual(cfg2, random.Random(1))
+    if f.get('id') != 'image-surface-refracts':
+        return None
     cfg = _replay_cfg()
     bad = c06_lib.oracle(cfg, random.Random(1))
     kinds = {b['kind'] for b in bad}
